@@ -104,6 +104,8 @@ def make_post(spec, h, stats):
                 require(p <= max(b, floor) + 1e-9, "pilot_exceeds_estimator_bound", lambda: "%s: session %s bound %r (min pilot floor %r), pilot %r" % (ctx, ses.session_id, b, floor, p))
                 if b < top - 1e-9:
                     stats["estimator_active"] += 1
+                if b == 0:
+                    stats["zero_bound"] += 1
                 own = min(own, max(b, floor))
             if p < own - 0.02 - 1e-9 and not (s["kind"] == "finite" and not any(p < float(r) <= own for r in s["rates"])):
                 stats["binding"] += 1
@@ -136,7 +138,7 @@ def make_updater(spec, h, stats):
 
 
 def prop(spec, rec):
-    stats = {"ambiguous": 0, "estimator_active": 0, "binding": 0, "schedules": 0, "updates_applied": 0}
+    stats = {"ambiguous": 0, "estimator_active": 0, "binding": 0, "schedules": 0, "updates_applied": 0, "zero_bound": 0}
     h = sc.build_sim(spec)
     h.scheduler.post = make_post(spec, h, stats)
     if spec.get("updates"):
@@ -158,7 +160,7 @@ def prop(spec, rec):
         # the same algorithm object drives a second, fresh simulation of the scenario (without the
         # mid-run updates): every schedule it emits there must be safe as well
         spec2 = dict(spec, updates=[])
-        stats2 = {"ambiguous": 0, "estimator_active": 0, "binding": 0, "schedules": 0, "updates_applied": 0}
+        stats2 = {"ambiguous": 0, "estimator_active": 0, "binding": 0, "schedules": 0, "updates_applied": 0, "zero_bound": 0}
         h2 = sc.build_sim(spec2, scheduler=sc.Wrapped(h.scheduler.inner))
         h2.scheduler.post = make_post(spec2, h2, stats2)
         np.random.normal = h2.feed
@@ -192,6 +194,8 @@ def prop(spec, rec):
         labels.add("has_finite_evse")
     if stats["updates_applied"]:
         labels.add("constraint_updated_mid_run")
+    if stats["zero_bound"]:
+        labels.add("estimator_bound_exactly_zero")
     if spec.get("reuse_algorithm"):
         labels.add("algorithm_object_reused")
     rec.count("schedules", stats["schedules"])
@@ -210,6 +214,15 @@ def cases(draw):
             ups.append({"t": draw(st.integers(1, max(1, last - 1))), "name": c["name"], "limit": draw(st.sampled_from([8.0, 12.0, 20.0, 33.0, 50.0, 100.0]))})
         spec["updates"] = ups
     spec["reuse_algorithm"] = draw(st.integers(0, 2)) == 0
+    if draw(st.integers(0, 3)) == 0:
+        # a car whose battery is full long before its (over-stated) request is met keeps drawing
+        # 0 A while it is still an active session: with up_increment 0 the rampdown estimator's
+        # bound for it is then exactly 0 A
+        spec["scheduler"]["estimator"] = {"up": draw(st.sampled_from([1, 0.5, 2])), "down": draw(st.sampled_from([1, 0.5, 3])), "inc": draw(st.sampled_from([0, 0, 0.5]))}
+        k = draw(st.integers(0, len(spec["sessions"]) - 1))
+        ses = spec["sessions"][k]
+        ses["battery"] = {"model": "ideal", "cap": 1.0, "init": draw(st.sampled_from([0.9, 0.999, 1.0])), "maxp": 6.6}
+        ses["energy"] = 6.0
     return spec
 
 
@@ -232,7 +245,7 @@ def subchecks(tier):
             prop,
             quick=400,
             thorough=30000,
-            floors={"constraint_updated_mid_run": 0.08, "binding_constraint": 0.225, "estimator_bound_below_max": 0.076, "uninterrupted": 0.15, "sched_rr": 0.127, "sched_greedy": 0.265, "has_continuous_evse": 0.4, "has_finite_evse": 0.312},
+            floors={"constraint_updated_mid_run": 0.08, "binding_constraint": 0.225, "estimator_bound_below_max": 0.076, "estimator_bound_exactly_zero": 0.02, "uninterrupted": 0.15, "sched_rr": 0.127, "sched_greedy": 0.265, "has_continuous_evse": 0.4, "has_finite_evse": 0.312},
         )
     ]
 
